@@ -120,7 +120,7 @@ class Logic:
         tr = self._translator(toks, env, atoms)
         e, ty = tr.expr(no_struct=True, expected=ret)
         nxt = tr.peek()
-        if not (nxt[0] == 'op' and nxt[1] in follow):
+        if not ((nxt[0] == 'op' and nxt[1] in follow) or (nxt[0] == 'eof' and follow == 'EOF')):
             raise TranslateError("anchor %r in %s: expression is followed by %r, expected %r" % (start_re, where, nxt, follow))
         end = start + ends[tr.i - 1]
         if after is not None and not re.match(r"\s*" + after, body[end:], re.S):
@@ -448,3 +448,25 @@ def claim_protocol(L, body, prefix, cycle_handler, where):
     L.raw("/-- `try_claim(…, Reentrancy::%s)` (%s) -/\ndef %s_reentrancy_allowed : Bool := %s\n" % (
         ra.group(1), where, prefix, 'true' if ra.group(1) == 'Allow' else 'false'))
     return stmts, ci
+
+
+def impl_body_re(src, impl_re, where):
+    """body of the unique `impl … {` whose header matches `impl_re` (which must end with `\\{`)"""
+    ms = list(re.finditer(impl_re, src))
+    if len(ms) != 1:
+        raise TranslateError("%s: impl header matches %d times" % (where, len(ms)))
+    end = match_brace(src, ms[0].end() - 1)
+    return src[ms[0].end():end - 1]
+
+
+def classify_steps(body, classes, where):
+    """every top-level statement of `body` must match exactly one of `classes` (name, regex);
+    returns the list of names in source order"""
+    res = []
+    for _, t in top_statements(body):
+        st = norm(t)
+        hit = [n for n, r in classes if re.search(r, st)]
+        if len(hit) != 1:
+            raise TranslateError("%s: statement %r matches %d step classes" % (where, st[:80], len(hit)))
+        res.append(hit[0])
+    return res
